@@ -290,6 +290,7 @@ package pokerface
 //@   ensures err == nil
 //@   ensures forall k :: 0 <= k && k < len(g.gs.Status.Pots) ==> g.gs.Status.Pots[k] != nil
 //@   loop 1 invariant pot.LLINV(ll) && (forall i :: in(i, ll.contributors) ==> 0 <= i && i <= rangeindex)
+//@   loop 1 invariant [C16] pot.LISTSOK(ll) && pot.TOTALSOK(ll)
 
 //@ pred TABLE(g) = forall i :: 0 <= i && i < len(g.gs.Players) ==> g.gs.Players[i].Wager <= g.gs.Status.CurrentWager
 
